@@ -56,10 +56,9 @@ func c05ValueKey(ru *fw.Rule, p *fw.Program, fn *ssa.Function, e *fw.SymEnv, st 
 	key := "value-key:" + label
 	ru.Check(fields["unit"] == want && fw.IsZeroDesc(fields["pad"]), key+":unit", p.Rel(st.Pos()), "."+label+" has unit "+want+" and no padding",
 		fmt.Sprintf(".%s must be the value's bits with unit %s and pad 0, has unit %q pad %q", label, want, fields["unit"], fields["pad"]))
-	const wantSyn = "(pkg/scalar.Flags).IsSynthetic(invoke.ScalarFlags(assert<pkg/scalar.Scalarable>(P0.dv->V)#0))"
 	found, leak := false, false
-	for _, c := range fw.CallsTo(fn, "(pkg/scalar.Flags).IsSynthetic") {
-		if l, ok := c05CaseLabel(c.Block(), fn.Params[1]); !ok || l != label || e.Of(c) != wantSyn {
+	for _, c := range c05SynTests(fn, e, "P0.dv") {
+		if l, ok := c05CaseLabel(c.Block(), fn.Params[1]); !ok || l != label {
 			continue
 		}
 		found = true
@@ -235,4 +234,232 @@ func c05JQStageQueries(q *gojq.Query) []*gojq.Query {
 		out = append(out, s)
 	}
 	return out
+}
+
+// ---------------------------------------------------------------------------
+// "is this value synthetic" tests, written inline or through an extracted helper
+
+// c05SynDesc is the descriptor of `x.V.(scalar.Scalarable).ScalarFlags().IsSynthetic()` for the value described by x.
+func c05SynDesc(x string) string {
+	return "(pkg/scalar.Flags).IsSynthetic(invoke.ScalarFlags(assert<pkg/scalar.Scalarable>(" + x + "->V)#0))"
+}
+
+// c05IsSynHelper: h(dv *decode.Value) bool is true exactly when dv.V is a scalar whose flags are synthetic:
+// every result is the IsSynthetic call on the parameter's V, or false on the edge where V is not Scalarable.
+func c05IsSynHelper(h *ssa.Function) bool {
+	if h == nil || h.Blocks == nil || len(h.Params) != 1 || h.Signature.Results().Len() != 1 || !c05IsNamed(h.Params[0].Type(), "pkg/decode", "Value") {
+		return false
+	}
+	if bt, ok := h.Signature.Results().At(0).Type().Underlying().(*types.Basic); !ok || bt.Kind() != types.Bool {
+		return false
+	}
+	e := fw.NewSymEnv(h)
+	var syn ssa.Value
+	for _, c := range fw.CallsTo(h, "(pkg/scalar.Flags).IsSynthetic") {
+		if e.Of(c) == c05SynDesc("P0") {
+			syn = c
+		}
+	}
+	if syn == nil {
+		return false
+	}
+	var allowed func(v ssa.Value, depth int) bool
+	allowed = func(v ssa.Value, depth int) bool {
+		if v == syn {
+			return true
+		}
+		ph, ok := v.(*ssa.Phi)
+		if !ok || depth > 3 {
+			return false
+		}
+		for i, ed := range ph.Edges {
+			if allowed(ed, depth+1) {
+				continue
+			}
+			// false only where the value is not a scalar at all
+			if e.Of(ed) != "false" {
+				return false
+			}
+			pred := ph.Block().Preds[i]
+			ifi, ok := pred.Instrs[len(pred.Instrs)-1].(*ssa.If)
+			if !ok {
+				return false
+			}
+			g := fw.Guard{Cond: ifi.Cond, True: pred.Succs[0] == ph.Block()}.Normalize()
+			if g.True || e.Of(g.Cond) != "assert<pkg/scalar.Scalarable>(P0->V)#1" {
+				return false
+			}
+		}
+		return true
+	}
+	n := 0
+	for _, ret := range c05Returns(h) {
+		if len(ret.Results) != 1 || !allowed(ret.Results[0], 0) {
+			return false
+		}
+		n++
+	}
+	return n > 0
+}
+
+// c05SynTests returns the boolean values of fn that are true exactly for a synthetic value x (descriptor):
+// inline IsSynthetic calls on x.V's scalar flags, and calls of a helper recognised by c05IsSynHelper with x.
+func c05SynTests(fn *ssa.Function, e *fw.SymEnv, x string) []*ssa.Call {
+	var out []*ssa.Call
+	for _, ci := range fw.CallsIn(fn) {
+		c, ok := ci.(*ssa.Call)
+		if !ok || c.Call.IsInvoke() {
+			continue
+		}
+		callee := c.Call.StaticCallee()
+		if callee == nil {
+			continue
+		}
+		if fw.ShortFn(callee) == "(pkg/scalar.Flags).IsSynthetic" {
+			if e.Of(c) == c05SynDesc(x) {
+				out = append(out, c)
+			}
+			continue
+		}
+		if len(c.Call.Args) == 1 && e.Of(c.Call.Args[0]) == x && c05IsSynHelper(callee) {
+			out = append(out, c)
+		}
+	}
+	return out
+}
+
+// ---------------------------------------------------------------------------
+// every value linked into a tree has a reader
+
+// c05LinkedHaveReader: decode()'s final walk stamps RootReader only on the values of ITS buffer root (it does not
+// descend into nested roots), so a value created inside a nested-root subtree keeps whatever reader it had when
+// it was linked. Hence every AddChild(v) in pkg/decode links a value whose RootReader is already established:
+// stored before the call (inline or by a helper that stamps its argument), or v comes out of decode()
+// (stamped by the walk) or is the value of a fieldDecoder (checked by the fieldDecoder obligation).
+func c05LinkedHaveReader(ru *fw.Rule, p *fw.Program, dec, decW *ssa.Function) {
+	addChild := p.Fn("(*pkg/decode.D).AddChild")
+	fieldDec := p.Fn("(*pkg/decode.D).fieldDecoder")
+	if addChild == nil {
+		return // reported by AddChild:parent
+	}
+	stamps := func(h *ssa.Function, idx int) bool { // h stores params[idx].RootReader on every completed call
+		if h == nil || h.Blocks == nil || idx >= len(h.Params) {
+			return false
+		}
+		ok := false
+		fw.EachInstr(h, func(ins ssa.Instruction) {
+			if st, isSt := ins.(*ssa.Store); isSt {
+				if x, isRR := c05FieldAddr(st.Addr, "pkg/decode", "Value", "RootReader"); isRR && x == ssa.Value(h.Params[idx]) && c05StoreUnconditional(h, st) {
+					ok = true
+				}
+			}
+		})
+		return ok
+	}
+	var fromDecode func(v ssa.Value, depth int) string
+	fromDecode = func(v ssa.Value, depth int) string {
+		if depth > 8 || v == nil {
+			return ""
+		}
+		switch x := v.(type) {
+		case *ssa.Extract:
+			if c, ok := x.Tuple.(*ssa.Call); ok && x.Index == 0 {
+				if callee := c.Call.StaticCallee(); callee != nil && (callee == dec || callee == decW) {
+					return "value decoded by decode()"
+				}
+			}
+			return fromDecode(x.Tuple, depth+1)
+		case *ssa.UnOp:
+			if x.Op == token.MUL {
+				if fa, ok := x.X.(*ssa.FieldAddr); ok && fieldNameOf(fa.X.Type(), fa.Field) == "Value" {
+					if c, ok := fa.X.(*ssa.Call); ok && c.Call.StaticCallee() != nil && c.Call.StaticCallee() == fieldDec {
+						return "value of a fieldDecoder"
+					}
+				}
+				return fromDecode(x.X, depth+1)
+			}
+		case *ssa.IndexAddr:
+			return fromDecode(x.X, depth+1)
+		case *ssa.Index:
+			return fromDecode(x.X, depth+1)
+		case *ssa.FieldAddr:
+			if n := fieldNameOf(x.X.Type(), x.Field); n == "Children" || n == "V" {
+				return fromDecode(x.X, depth+1)
+			}
+		case *ssa.Field:
+			return fromDecode(x.X, depth+1)
+		case *ssa.TypeAssert:
+			return fromDecode(x.X, depth+1)
+		case *ssa.Next:
+			return fromDecode(x.Iter, depth+1)
+		case *ssa.Range:
+			return fromDecode(x.X, depth+1)
+		}
+		return ""
+	}
+	n := 0
+	for _, fn := range c05PkgFns(p, "pkg/decode") {
+		e := fw.NewSymEnv(fn)
+		k := 0
+		for _, ci := range fw.CallsIn(fn) {
+			if ci.Common().StaticCallee() != addChild || ci.Common().IsInvoke() || len(ci.Common().Args) != 2 {
+				continue
+			}
+			k++
+			n++
+			x := ci.Common().Args[1]
+			key := fmt.Sprintf("linked-has-reader:%s#%d", fw.ShortFn(fn), k)
+			how := fromDecode(x, 0)
+			if how == "" {
+				fw.EachInstr(fn, func(ins ssa.Instruction) {
+					switch y := ins.(type) {
+					case *ssa.Store:
+						if b, ok := c05FieldAddr(y.Addr, "pkg/decode", "Value", "RootReader"); ok && b == x && (c05InstrDominates(y, ci) || c05AlwaysAfter(fn, ci, y)) {
+							how = "RootReader stored when linking"
+						}
+					case *ssa.Call:
+						if h := y.Call.StaticCallee(); h != nil && !y.Call.IsInvoke() && h != addChild && pkgRel(h) == "pkg/decode" && (c05InstrDominates(y, ci) || c05AlwaysAfter(fn, ci, y)) {
+							for i, a := range y.Call.Args {
+								if a == x && stamps(h, i) {
+									how = "RootReader stored by " + fw.ShortFn(h) + " before linking"
+								}
+							}
+						}
+					}
+				})
+			}
+			if how == "" {
+				if _, isParam := x.(*ssa.Parameter); isParam {
+					ru.Undecided(key, p.Rel(ci.Pos()), "AddChild of a parameter: the callers must be checked for the value's RootReader (extend the rule)")
+					continue
+				}
+			}
+			ru.Check(how != "", key, p.Rel(ci.Pos()), how,
+				"the value "+e.Of(x)+" is linked into the tree without a RootReader: decode()'s final walk does not descend into nested buffer roots, so inside such a subtree the value keeps a nil reader and tobytes/tobits of it have nothing to read")
+		}
+	}
+	if n == 0 {
+		ru.Undecided("linked-has-reader", "", "no AddChild call found in pkg/decode")
+	}
+}
+
+// c05AlwaysAfter: b executes after a on every path from a to a (non-recover) return of fn.
+func c05AlwaysAfter(fn *ssa.Function, a, b ssa.Instruction) bool {
+	if !c05InstrDominates(a, b) {
+		return false
+	}
+	n := 0
+	for _, ret := range c05Returns(fn) {
+		if fn.Recover != nil && ret.Block() == fn.Recover {
+			continue
+		}
+		if !fw.BlockReaches(a.Block(), ret.Block()) {
+			continue
+		}
+		n++
+		if !c05InstrDominates(b, ret) {
+			return false
+		}
+	}
+	return n > 0
 }
